@@ -82,6 +82,11 @@ func (ledger *FinalityLedger[T]) GetFinality(key LedgerKey) (T, xerrors.XError) 
 func (ledger *FinalityLedger[T]) getFinality(key LedgerKey) (T, xerrors.XError) {
 	var emptyNil T
 
+	// an item that is set again after it was removed (re-created) is visible again
+	if item, ok := ledger.finalityItems.getUpdatedItem(key); ok {
+		return item, nil
+	}
+
 	// if the item is already removed, return xerrors.ErrNotFoundResult
 	if ledger.finalityItems.isRemovedKey(key) {
 		return emptyNil, xerrors.ErrNotFoundResult
